@@ -106,6 +106,8 @@ mod client;
 mod handle;
 mod policy;
 mod state;
+#[cfg(polytune_verif)]
+pub mod verif;
 
 pub use client::{PolicyClient, PolicyClientBuilder};
 pub use handle::{HandleError, PolicyStateHandle};
